@@ -24,7 +24,10 @@ RULE = ('programs = C01 menus (core, jumps, try, clos, expr, state, callee) up t
 ASSUMPTIONS = ['an Undefined entry is the unbound state: identity and round-trip checks skip entries that are Undefined at that moment',
                'the "outputs first" restore check is not applied to the global-variable menu (a global modified in a branch is '
                'observable outside although it is input-only for the function)',
-               'loops are matched to their directives through the environment site of their test / iterable']
+               'loops are matched to their directives through the environment site of their test / iterable',
+               'a variable captured only by a lambda that is called after its defining statement is not operator state: documented '
+               'lambda limitation (limitations.md); such cases are recognised on the reduced witness (the same program with a def '
+               'instead of the lambda passes) and counted, not reported']
 
 PLAN = {
     'quick': [('core', 3, (('x', 'y'),), (('x',), ('x', 'y'))), ('jumps', 4, (('x',),), (('x',),)), ('try', 3, (('x',),), (('x',),)),
@@ -135,7 +138,7 @@ def reduce_witness(item, kind):
     except SyntaxError:
       return None
     try:
-      v = run_program(src, 'red', name, dirs, CAP['quick'], DEV['quick'])[0]
+      v = run_program(src, 'red', name, dirs, CAP[_S['tier']], DEV[_S['tier']])[0]
     except tapemod.TapeError:
       return None
     for x in v:
@@ -145,6 +148,7 @@ def reduce_witness(item, kind):
   best = fails(body, pro, epi)
   if best is None:
     return body, pro, epi, None
+  reduce_witness.fails = fails
   changed = True
   steps = 0
   while changed and steps < 60:
@@ -168,17 +172,25 @@ def check(item):
   viol, nexec, ncap, trunc, outcomes, ninv = run_program(src, idx, name, dirs, CAP[tier], DEV[tier])
   out = []
   seen = set()
+  lam_limit = 0
   for kind, msg, tp in viol:
     if kind in seen:
       continue
     seen.add(kind)
     rb, rp, re_, rv = reduce_witness(item, kind)
+    if (rv is not None and c01._has_kind_deep(rb, ('LAM',)) and c01._has_kind_deep(rb, ('if', 'while', 'for')) and
+        reduce_witness.fails(c01._subst_kind(rb, 'LAM', 'DEFR'), rp, re_) is None):
+      # documented limitation (limitations.md, "Variables closed over by lambda functions"): a lambda is assumed to be
+      # used in the statement that creates it, so a variable it captures is not operator state; the same program with a
+      # `def` in place of the lambda shows nothing
+      lam_limit += 1
+      continue
     rsrc = item_source((name, rb, rp, re_, -1000, dirs))
     sig = '%s|%s|%s|pro=%s|epi=%s|dir=%d|%s' % (kind, name, ps.skeleton(rb), ''.join(rp), ''.join(re_), dirs, rv[1] if rv else 'unreduced')
     out.append(util.V(sig, '%s on tape %s: %s\nreduced witness:\n%s' % (kind, list(tp), msg, rsrc), item, source=src, tape=list(tp)))
   return {'viol': out,
           'n': {'evaluations': ninv, 'programs': 1, 'executions': nexec, 'operator_invocations_checked': ninv,
-                'tape_cap_hits': ncap, 'exploration_truncated': int(trunc)},
+                'tape_cap_hits': ncap, 'exploration_truncated': int(trunc), 'documented_lambda_limitation_cases': lam_limit},
           'outcome': repr(outcomes), 'nontrivial': src if ninv else None,
           'sample': {'source': src, 'operator_invocations': ninv, 'tapes_explored': nexec}}
 
